@@ -22,10 +22,12 @@ import (
 const (
 	casesPerBatch     = 24
 	maxCrashesPerCase = 2
+	// give up early when at least this many events refuted the property and they
+	// are more than a quarter of everything sent (the unchanged tree with all its
+	// known defects refutes ~6% of the generated events)
+	stopAfterRefuting = 2000
 	confirmPerShape   = 4 // crashes re-run alone per (message, site); later ones are attributed by the one-command-at-a-time log
 )
-
-type batchStats struct{}
 
 func siteNoLine(site string) string {
 	if i := strings.LastIndex(site, ":"); i > 0 {
@@ -54,17 +56,14 @@ type runner struct {
 	mu        sync.Mutex
 	confirmed map[string]int
 	sigs      map[string]int // every refuting observation by signature (listed or not)
+	refuting  int64
 }
 
 func (r *runner) violation(sig, what string, witness any) {
 	r.mu.Lock()
 	r.sigs[sig]++
-	n := r.sigs[sig]
+	r.refuting++
 	r.mu.Unlock()
-	if d := os.Getenv("VERIF_C17_DEBUG_SIG"); d != "" && strings.Contains(sig, d) && n <= 3 { // diagnostics
-		b, _ := json.MarshalIndent(map[string]any{"signature": sig, "what": what, "witness": witness}, "", " ")
-		fmt.Printf("DEBUG %s\n", b)
-	}
 	r.c.Violation(sig, what, witness)
 }
 
@@ -94,6 +93,14 @@ func parseLines(res *core.ChildResult) []childLine {
 
 func (r *runner) runBatch(b int) {
 	c := r.c
+	r.mu.Lock()
+	refuting := r.refuting
+	r.mu.Unlock()
+	if refuting >= stopAfterRefuting && refuting*4 > c.Counter("events_sent") {
+		// the property is refuted many times over; more cases add nothing
+		c.Count("batches_skipped_after_many_violations", 1)
+		return
+	}
 	cases := r.genBatch(b)
 	checkers := make([]*checker, len(cases))
 	for i, tc := range cases {
@@ -198,7 +205,7 @@ func (r *runner) crash(tc *testCase, ck *checker, ci, ev int, cases []*testCase,
 		nm = core.NormalizeMsg(msg)
 		c.Count("crash_rerun_alone_confirmed", 1)
 	}
-	shape, st, le := ck.crashShape(tc.trees[ev], nm)
+	shape, st, le, via := ck.crashShape(tc.trees[ev], nm)
 	c.Count("crashes", 1)
 	c.Count("crash_shape_"+shape, 1)
 	det := map[string]any{
@@ -214,6 +221,10 @@ func (r *runner) crash(tc *testCase, ck *checker, ci, ev int, cases []*testCase,
 		det["value"] = st.In
 		det["leaf"] = strings.Join(le.Path, ".")
 		det["selected_ranges_in_listed_order"] = st.Walk
+		if via != "" {
+			det["note"] = via
+			c.Count("crash_reached_via_other_known_defect", 1)
+		}
 		what = fmt.Sprintf("%s: re=%q groups=%v on value %q (selection shape: %s): %s", what, mc.Re, mc.Groups, core.Trunc(st.In, 80), shape, msg)
 		c.Nontrivial("crash|" + shape + "|" + shortMode(mc) + "|" + bucket(st.Matches))
 	}
@@ -227,6 +238,13 @@ func (r *runner) checkEvent(tc *testCase, ck *checker, l *childLine) {
 	c.Count("events_sent", 1)
 	if l.Timeout {
 		c.Inconclusive("event not delivered to the output within 30s")
+		return
+	}
+	if l.TooBig > 0 {
+		// undecided by itself (several inserting masks can legitimately blow a
+		// value up); the remaining events of the case are not sent
+		c.Inconclusive("output document larger than the harness cap")
+		c.Count("events_skipped_after_oversized_output", int64(len(tc.Events)-l.Ev-1))
 		return
 	}
 	got, err := parseJSON(l.Out)
@@ -407,13 +425,8 @@ func shortModeKey(mc *maskCfg) string {
 
 func main() {
 	core.RegisterChild("mask", childMain)
-	if len(os.Args) > 2 && os.Args[1] == "dump-batch" { // diagnostics: write the child input of one batch
-		c := &core.Ctx{ID: "C17", Seed: 1}
-		r := &runner{c: c, nEvents: 12, confirmed: map[string]int{}, sigs: map[string]int{}}
-		var b int
-		fmt.Sscan(os.Args[2], &b)
-		out, _ := json.Marshal(childIn{Cases: r.genBatch(b)})
-		os.Stdout.Write(out)
+	if len(os.Args) > 2 && os.Args[1] == "probe" { // diagnostics: c17 probe '{"config":{...},"events":["{...}"]}'
+		probe(os.Args[2])
 		return
 	}
 	core.Main("C17", "exploration", func(c *core.Ctx) {
@@ -421,7 +434,7 @@ func main() {
 		c.Assume("Go regexp.FindAllSubmatchIndex is trusted for group ranges (the oracle judges the rewrite, not the regexp engine)")
 		c.Assume("encoding/json is trusted to parse the documents produced by the pipeline")
 		c.Assume("documentation leaves open: match_rules on original vs rewritten value; empty values processed or not; counters per event or per value; a number whose text is unchanged/remains numeric may stay a number or become a string - every reading is accepted")
-		nCases := c.N(1296, 62400)
+		nCases := c.N(5184, 90000)
 		r := &runner{c: c, nEvents: c.N(12, 16), confirmed: map[string]int{}, sigs: map[string]int{}}
 		nBatches := nCases / casesPerBatch
 		core.ParallelFor(nBatches, 24, r.runBatch)
@@ -442,4 +455,54 @@ func main() {
 			c.Fatal("too many generated configurations were rejected by the plugin (%d)", c.Counter("config_rejected"))
 		}
 	})
+}
+
+// probe runs one hand-written case through the real plugin (in a child) and
+// prints what the plugin produced next to what the model expects.
+func probe(arg string) {
+	var tc testCase
+	if err := json.Unmarshal([]byte(arg), &tc); err != nil {
+		fmt.Println("bad case:", err)
+		return
+	}
+	for _, e := range tc.Events {
+		t, err := parseJSON(e)
+		if err != nil {
+			fmt.Println("bad event:", err)
+			return
+		}
+		tc.trees = append(tc.trees, t)
+	}
+	ck := newChecker(&tc)
+	start := 0
+	for start < len(tc.Events) {
+		res := core.RunChild("mask", childIn{Cases: []*testCase{&tc}, StartEvent: start}, core.ChildOpt{Timeout: time.Minute})
+		next := len(tc.Events)
+		for _, l := range parseLines(res) {
+			switch l.T {
+			case "cmd":
+				next = l.Ev + 1
+			case "res":
+				if l.Ev < 0 {
+					fmt.Println("config rejected:", l.Err)
+					return
+				}
+				ex := ck.m.expect(tc.trees[l.Ev], variants[0])
+				got, _ := parseJSON(l.Out)
+				verdict := "conforms"
+				if got == nil {
+					verdict = "invalid output"
+				} else if r := ck.compare(ex, got, l.Metrics); r != nil {
+					verdict = "DISAGREES: " + r.Msg
+				}
+				fmt.Printf("event %d: in  %s\n         out %s\n         metrics %v\n         model: body %s marks %v -> %s\n", l.Ev, tc.Events[l.Ev], l.Out, l.Metrics, encodeJSON(ex.Tree, nil), ck.marks(ex), verdict)
+			}
+		}
+		if res.Completed {
+			return
+		}
+		msg, site := core.PanicSite(res.Stderr)
+		fmt.Printf("event %d: in  %s\n         PROCESS DIED: %s @%s\n", next-1, tc.Events[next-1], msg, site)
+		start = next
+	}
 }
